@@ -100,7 +100,7 @@ func cmdFunc(args []string) int {
 			continue
 		}
 		for _, c := range cf.Funcs {
-			if c.Kind == "func" && (c.Name == name || name == "all") {
+			if c.Kind == "func" && !c.Flags["trusted"] && (c.Name == name || name == "all") {
 				fcs = append(fcs, c)
 			}
 		}
@@ -232,9 +232,14 @@ func cmdCheck(prop, tier string, rest []string) int {
 	var fctxs []*FnCtx
 	var funcs []string
 	var transErrs []string
+	var trustedContracts []string
 	for _, cf := range e.Files {
 		for _, c := range cf.Funcs {
 			if c.Kind != "func" || !hasStr(c.Props, prop) {
+				continue
+			}
+			if c.Flags["trusted"] {
+				trustedContracts = append(trustedContracts, cf.PkgDir+": "+c.Name)
 				continue
 			}
 			fn := e.FindFunction(c)
@@ -370,6 +375,9 @@ func cmdCheck(prop, tier string, rest []string) int {
 		assumptions = append(assumptions, a)
 	}
 	assumptions = append(assumptions, meta.Assumed...)
+	for _, t := range trustedContracts {
+		assumptions = append(assumptions, "trusted (unverified) contract: "+t)
+	}
 	for k := range unknownCalls {
 		assumptions = append(assumptions, "unmodelled call treated as havoc of the whole heap: "+k)
 	}
